@@ -17,8 +17,10 @@ MACS = ["valid", "zero", "random", "empty", "len11", "len13"] + ["flip:%d" % (8 
 OID = (1, 3, 6, 1, 2, 1, 1, 3, 0)
 
 
-def forgery_class(cfg, mac, aflag, pflag, enc):
+def forgery_class(cfg, mac, aflag, pflag, enc, anon=None):
     """None = a legitimate message (must be accepted); else the class of forgery."""
+    if anon:
+        return "anonymous"
     if not aflag:
         return "flag_noauth"
     if mac != "valid":
@@ -55,6 +57,9 @@ def worker(job):
             # whatever the request looked like, the agent answers as the configured user at the configured level
             me = dict(user=cfg.user.encode(), auth_user=agent.users[cfg.user.encode()])
             kw = dict(mac=c["mac"], flags=flags, encrypt=c["enc"], **me)
+            if c.get("anon"):
+                # no user name at all, no MAC, in clear; msgFlags 0x04 (reportable only - the header of a discovery Report) or 0x00
+                kw.update(user=b"", flags=4 if c["anon"] == "reportable" else 0, mac="empty", encrypt=False)
             if c["body"] == "report":
                 forged = agent.report(req, rigp.REPORT_WRONG_DIGEST, counter=forged_serial & 0x7FFFFFFF, **kw)
             else:
@@ -83,7 +88,7 @@ def worker(job):
         st["case"] = c
         out = drv.call("get", B.oid_text(OID))
         res["cases"] += 1
-        fc = forgery_class(cfg, c["mac"], c["aflag"], c["pflag"], c["enc"])
+        fc = forgery_class(cfg, c["mac"], c["aflag"], c["pflag"], c["enc"], c.get("anon"))
         cls = "%s:%s" % (c["body"], fc or "legitimate")
         res["classes"][cls] = res["classes"].get(cls, 0) + 1
         if "agent_err" in st:
@@ -173,6 +178,9 @@ def main():
                     for body in ("response", "report"):
                         for enc in ((True, False) if cfg.priv else (False,)):
                             cases.append({"mac": mac, "aflag": aflag, "pflag": pflag, "body": body, "enc": enc})
+        for anon in ("reportable", "plain"):
+            for body in ("response", "report"):
+                cases += [{"mac": "empty", "aflag": False, "pflag": False, "body": body, "enc": False, "anon": anon}] * 2
         random.Random(a.seed + ci).shuffle(cases)
         reps = 1 if a.tier == "quick" else 4
         jobs.append({"seed": a.seed * 100 + ci, "cfg": cfg.to_json(), "cases": cases * reps})
